@@ -23,6 +23,7 @@ from yv.engine import explore, real, solve, stubs
 from yv.engine.real import S, Ctx
 from yv.props import common as cm
 
+SHARDABLE = True  # the couplings clause is partitioned by cell; the CC limit and the vacuity twin run in shard 0
 PAIRS = [("NonSinglet", "AsyQuark"), ("Gluon", "AsyGluon")]
 KINDS = ["f2", "fl", "f3"]
 TAU = "1/1000000000"
@@ -108,6 +109,8 @@ def run_weights(chk):
     n = 0
     for cell in cells:
         cname = "weights:" + ":".join(str(c) for c in cell)
+        if not chk.mine(cname):
+            continue
         with Ctx(chk.seed) as ctx, cm.fixed_nf(), cm.generic_drop_empty(), stubs.cf_stubs():
             def body(cell=cell):
                 return weight_forms(ctx, cell, SCHEMES[cell[6]][0]), weight_forms(ctx, cell, SCHEMES[cell[6]][1])
@@ -252,7 +255,7 @@ def run(chk, only=None):
                "NUMBA_DISABLE_JIT=1: Python semantics of the kernels",
                "NOT claimed: neutral-current heavy channels (external libraries), intrinsic and 'missing' channels, the rate of the approach, finite Q2/m2")
     n_cells = 0
-    for kind in KINDS:
+    for kind in KINDS if chk.first else []:
         for hname, aname in PAIRS:
             for order in (0, 1):
                 cname = f"heavy.{kind}_cc.{hname} -> asy.{kind}_cc.{aname}/o{order}"
@@ -350,6 +353,9 @@ def run(chk, only=None):
                             chk.report(f"limit:{kind}.{hname}:o{order}:{part}", f"{label}: the massive coefficient function does not tend to its asymptotic counterpart",
                                        "limit", dict(kind=kind, hname=hname, aname=aname, order=order, part=part, z=zz, x=xx, Q2=max(g("Q2"), 1.0)))
     run_weights(chk)
+    if not chk.first:
+        chk.section("cc_limit", cells=0)
+        return chk.finish(explanation="shard of C08 (see the merged evidence)", rule="")
     # vacuity: a perturbed oracle (L -> L + 1 in the link between the formal logarithm and the asymptotic class) must be refuted
     with Ctx(chk.seed) as ctx, stubs.cf_stubs():
         ctx.log_monotone = True
